@@ -54,6 +54,13 @@ CHECKS = {
             "must be in the identity, inside the applicable restrictions/patterns, inside the entity-category entitlement (RELEASE tables read as "
             "data) and inside the SP's declaration where that applies - in every outcome.",
             PURE, "3/C07"),
+    "C09": ("exploration", "generated metadata layouts + request-variant product + dictionary model of the metadata as oracle",
+            "Builds IdPs over hand-written SP metadata (several ACS/SLO/ManageNameID endpoints, bindings, indexes, two SPs, colliding and "
+            "look-alike URLs) and calls Server.response_args on every combination of issuer (known/other/unknown) x consumer URL (registered, "
+            "unregistered, nine near-miss forms, the other SP's) x index (known/unknown/garbage) x protocol binding, and on logout and "
+            "manage-name-id requests; a returned destination must be registered for that issuer and binding, a supplied URL/index is "
+            "honoured exactly or refused, an unknown issuer never gets a destination.",
+            PURE, "3/C09"),
     "C11": ("exploration", "hostile-document workload over introspected entry points with audit-hook, parser-construction and tool-log monitors",
             "Feeds a catalogue of hostile documents (internal/external/parameter entities, billion laughs, external DTD, XInclude, stylesheet PI, "
             "UTF-16/BOM, truncations, non-XML) to every *_from_string of every schema module, the generic constructors, the SOAP/pack readers, the "
